@@ -298,7 +298,12 @@ func (fc *funcContext) translateExpr(expr ast.Expr) *expression {
 			case isInteger(basic):
 				return fc.fixNumber(fc.formatExpr("-%e", e.X), basic)
 			default:
-				return fc.formatExpr("-%e", e.X)
+				x := fc.translateExpr(e.X).StringWithParens()
+				if strings.HasPrefix(x, "-") {
+					// "- -x" must not become the JavaScript decrement operator.
+					x = "(" + x + ")"
+				}
+				return fc.formatExpr("-%s", x)
 			}
 		case token.XOR:
 			if is64Bit(basic) {
